@@ -55,14 +55,12 @@ func (m *ConnectednessManager) AssociatePeer(group string, peer peer.ID) {
 	sg := m.getGroupStatus(group)
 	sp := m.getPeerStatus(peer)
 
-	sg.notify.L.Lock()
 	if _, ok := sg.peers[peer]; !ok {
 		// we got a new peer, update and signal an update
 		sg.peers[peer] = sp
 		sp.groups[group] = sg
 		sg.notify.Broadcast()
 	}
-	sg.notify.L.Unlock()
 }
 
 // UpdateState update peer current connectedness state
@@ -83,12 +81,13 @@ func (m *ConnectednessManager) UpdateState(peer peer.ID, update ConnectednessTyp
 
 // WaitForConnectednessChange wait until the given `current` peers status differ from `local` peers state
 func (m *ConnectednessManager) WaitForConnectednessChange(ctx context.Context, gkey string, current PeersConnectedness) ([]peer.ID, bool) {
+	// muState is the locker of every group notify: the state is compared and
+	// the wait is entered under the same lock that updaters hold when they
+	// change the state and broadcast
 	m.muState.Lock()
 	sg := m.getGroupStatus(gkey)
-	m.muState.Unlock()
 
 	ok := true
-	sg.notify.L.Lock()
 	var updated []peer.ID
 	for ok {
 		// check if there are some diff between local state and the current state
@@ -101,7 +100,7 @@ func (m *ConnectednessManager) WaitForConnectednessChange(ctx context.Context, g
 		ok = sg.notify.Wait(ctx)
 	}
 
-	sg.notify.L.Unlock()
+	m.muState.Unlock()
 
 	return updated, ok
 }
@@ -111,7 +110,7 @@ func (m *ConnectednessManager) getGroupStatus(gkey string) *GroupStatus {
 	if !ok {
 		s = &GroupStatus{
 			peers:  make(map[peer.ID]*PeerStatus),
-			notify: notify.New(&sync.Mutex{}),
+			notify: notify.New(&m.muState),
 		}
 		m.groupState[gkey] = s
 	}
@@ -129,9 +128,8 @@ func (m *ConnectednessManager) getPeerStatus(peer peer.ID) *PeerStatus {
 	return s
 }
 
+// updateStatus must be called with muState held
 func (m *ConnectednessManager) updateStatus(group *GroupStatus, current PeersConnectedness) []peer.ID {
-	m.muState.Lock()
-
 	updated := []peer.ID{}
 	for peer := range group.peers {
 		if ourPeer, ok := m.peerState[peer]; ok {
@@ -145,8 +143,6 @@ func (m *ConnectednessManager) updateStatus(group *GroupStatus, current PeersCon
 			updated = append(updated, peer)
 		}
 	}
-
-	m.muState.Unlock()
 
 	return updated
 }
